@@ -201,7 +201,7 @@ type lockReq struct {
 func (r *lockReq) key() string {
 	cid := "-"
 	if r.conn != nil {
-		cid = fmt.Sprintf("c%03d", r.conn.id)
+		cid = r.conn.name
 	}
 	m := "R"
 	if r.mode == modeW {
